@@ -107,6 +107,7 @@ def apply_gate_grad(q0_conj:np.ndarray, q0_grad:np.ndarray, op:np.ndarray, index
         q0_grad (np.ndarray): the gradient of the quantum vector before applying the gate
         op_grad (np.ndarray,None): the gradient of the gate, None if `tag_op_grad=False`
     '''
+    index = hf_tuple_of_int(index)
     q0_conj = apply_gate(q0_conj, op.T, index)
     if tag_op_grad:
         num_state = len(q0_conj)
